@@ -196,6 +196,24 @@ def strip_markers(lines):
     return [l for l in lines if not l.startswith(MARKERS) and not (l.startswith("EV ") and l.split()[1] not in ("A", "D", "AFAIL"))]
 
 
+def model_agrees(impl, model):
+    """the faithful model predicts the implementation's observations (alarm lines aside); when
+    the implementation died (guard page hit, SIGSEGV), up to its last complete step"""
+    if any(l.startswith("CRASH") for l in impl):
+        last = max((i for i, l in enumerate(impl) if l.startswith("STEP")), default=0)
+        nsteps = sum(1 for l in impl[:last] if l.startswith("STEP"))
+        impl = impl[:last]
+        cut, seen = len(model), 0
+        for i, l in enumerate(model):
+            if l.startswith("STEP"):
+                if seen == nsteps:
+                    cut = i
+                    break
+                seen += 1
+        model = model[:cut]
+    return first_diff(canon(strip_markers(impl)), canon(strip_markers(model))) is None
+
+
 def first_diff(a, b):
     for i, (x, y) in enumerate(zip(a, b)):
         if x != y:
@@ -332,7 +350,7 @@ def main():
                     violations.append({"kind": "oracle" if ov else "correspondence", "L": j.L, "K": j.K,
                                        "detail": (ov[0] if ov else "impl: %s | model: %s (line %d)" % (d[1], d[2], d[0])),
                                        "oracle": ov, "script": lines, "sid": sid, "job": j,
-                                       "model_agrees": static_ok and first_diff(canon(strip_markers(ib.get(sid, []))), canon(strip_markers(mb.get(sid, [])))) is None,
+                                       "model_agrees": static_ok and model_agrees(ib.get(sid, []), mb.get(sid, [])),
                                        "model_agrees_static": static_ok,
                                        "header": gen.header_text(j.L, j.K, j.statics)})
 
